@@ -93,6 +93,10 @@ def evo_events():
         EA("P", ["A01", "B01"], [1, 2], [30, 7.5]),
         EA("P", ["A01", "B01"], [1, 2], 95.0),
         EA("P", ["A01", "B01"], [1, 2], [30, 70.0]),
+        EA("P", ["A01", "B01"], [1, 2], [70.0, 30]),
+        EA("T", ["A01", "B01", "C01"], [1, 2, 3], [7.5, 70.0, 30]),
+        ED("Q", ["A01", "B01", "C01"], [2, 3, 4], [70.0, 7.5, 30]),
+        ED("Q", ["A01", "B01"], [1, 2], [7.5, 70.0]),
         EA("P", ["A01", "A02"], [1, 2], 7.5),
         EA("T", ["A01", "B01", "C01"], [1, 2, 3], 40.0),
         EA("P", ["A01"], [1], 7.5, arm=2),
